@@ -189,7 +189,7 @@ func TestEventsWhenWaitsAreCancelled(t *testing.T) {
 		}()
 		select {
 		case <-doneCh:
-		case <-time.After(30 * time.Second):
+		case <-harness.After(30 * time.Second):
 			harness.Violation(t, cfg.Prop, test, "cancelled-wait-hangs", sc, "%+v: the call had not returned 30s after the context was cancelled", sc)
 		}
 		bad := func(f string, a ...any) {
